@@ -1,5 +1,5 @@
 (* The class of workflows and operations for which C01 (progress) is proved for every run (proofs/Progress.v): steps in
-   sequence whose acts are interactive (irq) acts or message (msg) acts; any schedule; complete / submit / remove on any task at any time.
+   sequence whose acts are interactive (irq) acts or message (msg) acts; any schedule; complete / submit / remove / skip on any task at any time.
    Definitions only (they are also extracted: the generator of the class corpus checks membership with them). *)
 From Coq Require Import List Arith ZArith Bool.
 Import ListNotations.
@@ -26,6 +26,6 @@ Definition frag_nodes (ns : list node) : bool :=
   forallb (frag_node ns) ns && match ns with r :: _ => nkind_beq (n_kind r) KWorkflow | [] => false end.
 
 
-(* the operations: any scheduler step, and the three closing actions a client answers an act with *)
-Definition allowed (a : action) : bool := match a with ANext | ASubmit | ARemove => true | _ => false end.
+(* the operations: any scheduler step, and the four closing actions a client answers an act with *)
+Definition allowed (a : action) : bool := match a with ANext | ASubmit | ARemove | ASkip => true | _ => false end.
 Definition frag_op (o : op) : bool := match o with OSched _ | ODrain => true | OAct _ a _ => allowed a | OTick _ => false end.
